@@ -182,6 +182,8 @@ pub enum Op {
     ReleaseRaw { id: u32 },
     Timer { k: Tk },
     SetPing { ms: Option<u64> },
+    /// set_pingresp_recv_timeout while running (0 disables)
+    SetPingresp { ms: u64 },
     Advance { ms: u64 },
     /// the transport is lost; `partial` > 0: the peer's next frame is cut after that many bytes first
     Close { partial: u16 },
@@ -840,6 +842,9 @@ impl Solo {
                 let evs = self.w.set_ping(*ms);
                 self.handle(&evs);
             }
+            Op::SetPingresp { ms } => {
+                self.w.set_pingresp(*ms);
+            }
             Op::Advance { ms } => {
                 // idle time never passes an armed deadline without the timer firing first
                 let lim = self.deadline.iter().flatten().min().cloned();
@@ -1382,7 +1387,13 @@ pub fn gen_op(s: &Solo, r: &mut Rng, prof: &GenProfile) -> Op {
         },
         11 => Op::Erase { nth: r.below(4) as u8 },
         12 => match r.below(6) {
-            0 => Op::SetPing { ms: *r.pick(&[None, Some(0), Some(3000), Some(7000)]) },
+            0 => {
+                if r.chance(1, 3) {
+                    Op::SetPingresp { ms: *r.pick(&[0u64, 0, 2000, 5000]) }
+                } else {
+                    Op::SetPing { ms: *r.pick(&[None, Some(0), Some(3000), Some(7000)]) }
+                }
+            }
             1 => Op::Advance { ms: r.range(1, 5000) },
             2 => Op::SetChunk { n: if cfg.f_chunk { *r.pick(&[0u16, 1, 2, 3, 7]) } else { 0 } },
             3 => Op::AppAnswer,
